@@ -757,15 +757,8 @@ def judge(c, pub, cases, stats, flow="build"):
             if Uw != U:
                 note(c, "validate-only: references as written differ from the references as read")
             U = Uw
-            # reported: an invoice WITHOUT a regime (supplier of a country no regime covers; regimes/common/examples/invoice-zw.yaml) that
-            # is read and validated without calculation passes with an undefined `currency` ("QQQ", "usd"): bill.Invoice.ValidateWithContext
-            # puts validation.Skip after Required on the currency when there is no regime, and Skip also skips currency.Code.Validate
-            rl = {r for r in U if r[0] == "currency" and r[1] == "currency" and view[2] == "bill/invoice" and not view[0]}
-            if rl and verdict == "accepted":
-                note(c, "reported: regime-less invoice validated without calculation accepts an undefined currency")
-                if U == rl:
-                    continue
-                U = U - rl
+            # (repaired in /repo e451d3d: a regime-less invoice read and validated without calculation passed with an undefined currency -
+            # validation.Skip after Required also skipped currency.Code.Validate; no exclusion is left)
         if vo and verdict == "accepted" and not U and mut["new"] and cls in ("undefined", "undefined-variant", "undefined-first-part") \
                 and mut["new"] not in json.dumps(view) and (kind not in HEADER_KINDS or ("$" + kind + ("s" if kind != "regime" else "")) in schema_members(view[2])):
             k = ("dropped", kind, cls)
